@@ -508,22 +508,8 @@ def sig_ambiguous_holes(case, params):
         return False
 
 
-def sig_nonfixpoint_path_safe(case, params):
-    """The rule and the index differ on a request whose path_safe is not a fixed point of path_safe (malformed
-    escape in the target), and a plain resource is written with a percent-escape."""
-    if not (case.get("kind") == "rule" and "path" in case):
-        return False
-    from aiohttp.web_urldispatcher import _path_safe
-    ps = _path_safe(case["path"])
-
-    def plain_escaped(ops):
-        return any((o[0] == "R" and "{" not in o[2] and _path_safe(o[2]) != o[2]) or (o[0] in ("SUB", "DOM") and plain_escaped(o[2])) for o in ops)
-    return _path_safe(ps) != ps and plain_escaped(case["ops"])
-
-
 SIGNATURES = {
     "ambiguous_holes": sig_ambiguous_holes,
-    "nonfixpoint_path_safe": sig_nonfixpoint_path_safe,
 }
 
 
